@@ -5,11 +5,14 @@ value-origin chains over reaching definitions."""
 from __future__ import annotations
 
 import ast
+import itertools
+import re
 import typing as t
 
 from .. import astq
 from ..cfg import CFG, Node, cfg_of
 from ..dataflow import Def, ReachingDefs
+from ..guards import canon
 from ..loader import AnalysisError, ClassInfo, FuncInfo, Repo, dotted, norm, walk_no_nested
 
 
@@ -406,3 +409,515 @@ def class_of(repo: Repo, fq: str) -> ClassInfo:
     if c is None:
         raise AnalysisError(f"class {fq} not found")
     return c
+
+
+# ---------------------------------------------------------------------
+# truth table of sansio is_resource_modified: its CFG is executed with every condition as an abstract boolean
+#
+# Conditions are classified by MEANING after copy propagation of locals (a local bound to parse_etags(<header>) is that
+# parse, whatever its name): presence of the response ETag, the If-Range gate (ignore_if_range, Range sent, parsed
+# If-Range carries a tag), "<parsed header> is non-empty", "<parsed header>.<method>(etag)".  Every other condition
+# (the date tests, isinstance checks ...) is a free boolean.  Locals that hold truth values (the verdict) are carried
+# as concrete True / False, so plain assignment, conditional set, conditional expression, augmented assignment and
+# early return of the same function give the same table.
+
+_PURE = {
+    "werkzeug.http.parse_etags": "parse_etags",
+    "werkzeug.http.parse_if_range_header": "parse_if_range_header",
+    "werkzeug.http.generate_etag": "generate_etag",
+}
+_HEADER_ROLE = {"http_if_match": "IM", "http_if_none_match": "INM", "http_if_range": "IFR"}
+_ROLE_NAME = {"IM": "If-Match", "INM": "If-None-Match", "IFR": "If-Range tag"}
+
+
+class TableOutcome(t.NamedTuple):
+    val: dict  # atom id -> truth value, for every atom consulted on the path
+    result: bool  # truth value of the returned expression
+    ret: ast.Return
+
+
+class Mismatch(t.NamedTuple):
+    role: str
+    outcome: TableOutcome
+    row: dict  # the completed valuation
+    expected: bool  # required truth value of "not modified"
+
+
+class VerdictTable:
+    """symbolic execution of one loop-free function whose result is the (negated) verdict."""
+
+    LIMIT = 400000
+
+    def __init__(self, A: FA):
+        self.A = A
+        self.fq = A.fi.fq
+        self.params = set(A.fi.params)
+        self.steps = 0
+        self.outcomes: list[TableOutcome] = []
+        self.site_roles: dict[int, set[str]] = {}  # id(parse_etags call in the source) -> validators it parses on the paths
+        # does parse_if_range_header ever return None?  (`if_range is None` is infeasible for a parsed header if not)
+        self.ifr_never_none = False
+        pf = A.repo.try_func("werkzeug.http.parse_if_range_header")
+        if pf is not None:
+            rets = astq.returns_of(pf.node)
+            self.ifr_never_none = bool(rets) and all(isinstance(r.value, ast.Call) for r in rets)
+        # is a parsed If-Range always truthy?  (`if if_range:` then means `if_range is not None`)
+        self.ifr_always_truthy = False
+        try:
+            ic = A.repo.try_cls(A.repo.canonical("werkzeug.datastructures.range.IfRange"))
+        except AnalysisError:
+            ic = None
+        if ic is not None and not ic.base_exprs and not ({"__bool__", "__len__"} & set(ic.methods)):
+            self.ifr_always_truthy = True
+        self._run()
+
+    # -- closing expressions over the environment ----------------------------------------
+    def close(self, e: ast.AST, env: dict) -> ast.AST:
+        A = self.A
+
+        def go(x: ast.AST) -> ast.AST:
+            if isinstance(x, ast.Name):
+                if x.id in env:
+                    return env[x.id]  # closed values are never mutated, sharing is safe
+                return ast.Name(id=x.id, ctx=ast.Load())
+            if isinstance(x, ast.Call):
+                fq = A.resolve(x.func)
+                func = ast.Name(id=_PURE[fq], ctx=ast.Load()) if fq in _PURE else go(x.func)
+                new = ast.Call(func=func, args=[go(a) for a in x.args], keywords=[ast.keyword(arg=k.arg, value=go(k.value)) for k in x.keywords])
+                if fq == "werkzeug.http.parse_etags":
+                    r = self._tags_role(new)
+                    if r is not None:
+                        self.site_roles.setdefault(id(x), set()).add(r)
+                return new
+            if isinstance(x, (ast.Lambda, ast.ListComp, ast.SetComp, ast.DictComp, ast.GeneratorExp)):
+                return x
+            new = x.__class__()
+            for f, v in ast.iter_fields(x):
+                if isinstance(v, ast.AST):
+                    v = go(v)
+                elif isinstance(v, list):
+                    v = [go(i) if isinstance(i, ast.AST) else i for i in v]
+                setattr(new, f, v)
+            return new
+
+        return go(e)
+
+    # -- recognising what a closed expression means ------------------------------------------
+    def _param(self, e: ast.AST, name: str) -> bool:
+        return isinstance(e, ast.Name) and e.id == name and name in self.params
+
+    def _is_ifr(self, e: ast.AST) -> bool:
+        return isinstance(e, ast.Call) and astq.is_name(e.func, "parse_if_range_header") and len(e.args) == 1 and not e.keywords and self._param(e.args[0], "http_if_range")
+
+    def _tags_role(self, e: ast.AST) -> str | None:
+        """role of a closed `parse_etags(<x>)`"""
+        if not (isinstance(e, ast.Call) and astq.is_name(e.func, "parse_etags")):
+            return None
+        if len(e.args) != 1 or e.keywords:
+            raise AnalysisError(f"{self.fq}: `{norm(e)}` is not a one-argument parse_etags call")
+        x = e.args[0]
+        for p, r in _HEADER_ROLE.items():
+            if r != "IFR" and self._param(x, p):
+                return r
+        if isinstance(x, ast.Attribute) and x.attr == "etag" and self._is_ifr(x.value):
+            return "IFR"
+        raise AnalysisError(f"{self.fq}: cannot tell which validator `{norm(e)}` parses")
+
+    def _subject(self, e: ast.AST) -> str | None:
+        for p, s in (("etag", "etag"), ("ignore_if_range", "ign"), ("http_range", "rng"), ("data", "data"), ("http_if_match", "h_IM"), ("http_if_none_match", "h_INM"), ("http_if_range", "h_IFR")):
+            if self._param(e, p):
+                return s
+        if self._is_ifr(e):
+            return "ifr"
+        if isinstance(e, ast.Attribute) and e.attr == "etag" and self._is_ifr(e.value):
+            return "ifrtag"
+        return None
+
+    _KNOWN = {"etag_none", "etag_truthy", "ign_truthy", "rng_none", "rng_truthy", "data_none", "data_truthy", "ifr_none", "ifrtag_none"} | {f"h_{r}_{k}" for r in ("IM", "INM", "IFR") for k in ("none", "truthy")}
+
+    def _cmp_call(self, c: ast.AST) -> tuple[str, str] | None:
+        """closed `parse_etags(<x>).<method>(<arg>)` -> (role, method)"""
+        if isinstance(c, ast.Call) and isinstance(c.func, ast.Attribute):
+            r = self._tags_role(c.func.value)
+            if r is not None:
+                return r, c.func.attr
+        return None
+
+    def _sensitive(self, c: ast.AST) -> str | None:
+        """a validator value inside an expression this table has no meaning for"""
+        for x in ast.walk(c):
+            if isinstance(x, ast.Call) and astq.is_name(x.func, "parse_etags"):
+                return norm(x)
+        return None
+
+    def _sensitive_test(self, c: ast.AST) -> str | None:
+        s = self._sensitive(c)
+        if s is not None:
+            return s
+        skip: set[int] = set()
+        for x in ast.walk(c):
+            if isinstance(x, ast.Attribute) and x.attr == "date" and self._is_ifr(x.value):
+                skip |= {id(y) for y in ast.walk(x)}
+        for x in ast.walk(c):
+            if id(x) in skip:
+                continue
+            if self._is_ifr(x):
+                return norm(x)
+            for p in ("etag", "ignore_if_range", "http_if_match", "http_if_none_match"):
+                if self._param(x, p):
+                    return p
+        return None
+
+    def classify(self, c: ast.AST) -> tuple[str, bool]:
+        """closed condition -> ("const", value) | (atom id, positive)"""
+        if isinstance(c, ast.Constant):
+            return "const", bool(c.value)
+        p = astq.cmp_parts(c)
+        if p is not None and isinstance(p[1], (ast.Is, ast.IsNot, ast.Eq, ast.NotEq)) and (astq.is_none(p[0]) or astq.is_none(p[2])):
+            subj = p[2] if astq.is_none(p[0]) else p[0]
+            pos = isinstance(p[1], (ast.Is, ast.Eq))
+            if isinstance(subj, ast.Constant):
+                return "const", (subj.value is None) == pos
+            sid = self._subject(subj)
+            if sid is not None:
+                return self._known(f"{sid}_none", c), pos
+        else:
+            sid = self._subject(c)
+            if sid == "ifr" and self.ifr_always_truthy:
+                return "ifr_none", False
+            if sid is not None:
+                return self._known(f"{sid}_truthy", c), True
+            r = self._tags_role(c)
+            if r is not None:
+                return f"P_{r}", True
+            rm = self._cmp_call(c)
+            if rm is not None:
+                return f"C_{rm[0]}.{rm[1]}", True
+        s = self._sensitive_test(c)
+        if s is not None:
+            raise AnalysisError(f"{self.fq}: cannot interpret the condition `{norm(c)}` (it tests `{s}`) in terms of the validators")
+        k, pos = canon(c)
+        return "~" + k, pos
+
+    def _known(self, aid: str, c: ast.AST) -> str:
+        if aid not in self._KNOWN:
+            raise AnalysisError(f"{self.fq}: cannot interpret the condition `{norm(c)}` in terms of the validators")
+        return aid
+
+    # -- consistency of a (partial) valuation -------------------------------------------------
+    def consistent(self, v: dict) -> bool:
+        def is_(k: str, b: bool) -> bool:
+            return v.get(k) is b
+
+        if is_("etag_none", True) and is_("etag_truthy", True):
+            return False
+        if is_("rng_none", True) and is_("rng_truthy", True):
+            return False
+        if self.ifr_never_none and is_("ifr_none", True):
+            return False
+        for r in ("IM", "INM", "IFR"):
+            if is_(f"h_{r}_none", True) and is_(f"h_{r}_truthy", True):
+                return False
+            absent = is_(f"h_{r}_none", True) or is_(f"h_{r}_truthy", False)  # parse of no header: no tags
+            if r == "IFR":
+                if absent and is_("ifrtag_none", False):
+                    return False
+                absent = absent or is_("ifrtag_none", True)
+            if absent and is_(f"P_{r}", True):
+                return False
+            if (absent or is_(f"P_{r}", False)) and any(x for k, x in v.items() if k.startswith(f"C_{r}.")):
+                return False  # an empty ETags object (no tags, no star) contains nothing
+        return True
+
+    # -- evaluation ---------------------------------------------------------------------------
+    def _tick(self) -> None:
+        self.steps += 1
+        if self.steps > self.LIMIT:
+            raise AnalysisError(f"{self.fq}: too many paths for the verdict table")
+
+    def truth(self, e: ast.AST, env: dict, val: dict, node: Node) -> list[tuple[bool, dict, dict]]:
+        self._tick()
+        if isinstance(e, ast.Constant):
+            return [(bool(e.value), env, val)]
+        if isinstance(e, ast.UnaryOp) and isinstance(e.op, ast.Not):
+            return [(not b, en, va) for b, en, va in self.truth(e.operand, env, val, node)]
+        if isinstance(e, ast.BoolOp):
+            stop = isinstance(e.op, ast.Or)  # the value that short-circuits
+            done: list[tuple[bool, dict, dict]] = []
+            live = [(env, val)]
+            for i, x in enumerate(e.values):
+                nxt = []
+                for en, va in live:
+                    for b, en2, va2 in self.truth(x, en, va, node):
+                        if b == stop or i == len(e.values) - 1:
+                            done.append((b, en2, va2))
+                        else:
+                            nxt.append((en2, va2))
+                live = nxt
+            return done
+        if isinstance(e, ast.IfExp):
+            out = []
+            for b, en, va in self.truth(e.test, env, val, node):
+                out += self.truth(e.body if b else e.orelse, en, va, node)
+            return out
+        if isinstance(e, ast.NamedExpr) and isinstance(e.target, ast.Name):
+            out = []
+            for en, va in self.bind(e.target.id, e.value, env, val, node):
+                out += self.truth(ast.Name(id=e.target.id, ctx=ast.Load()), en, va, node)
+            return out
+        if isinstance(e, ast.Call) and dotted(e.func) == "bool" and len(e.args) == 1 and not e.keywords:
+            return self.truth(e.args[0], env, val, node)
+        c = self.close(e, env)
+        aid, pos = self.classify(c)
+        if aid == "const":
+            return [(pos, env, val)]
+        if aid in val:
+            return [(val[aid] == pos, env, val)]
+        out = []
+        for b in (True, False):
+            v2 = dict(val)
+            v2[aid] = b
+            if self.consistent(v2):
+                out.append((b == pos, env, v2))
+        return out
+
+    def _boolean_shaped(self, e: ast.AST, env: dict) -> bool:
+        if isinstance(e, ast.Constant):
+            return isinstance(e.value, bool)
+        if isinstance(e, ast.UnaryOp) and isinstance(e.op, ast.Not):
+            return True
+        if isinstance(e, ast.Compare):
+            return True
+        if isinstance(e, ast.Call) and dotted(e.func) == "bool" and len(e.args) == 1 and not e.keywords:
+            return True
+        if isinstance(e, ast.BoolOp):
+            return any(self._boolean_shaped(x, env) for x in e.values)
+        if isinstance(e, ast.IfExp):
+            return self._boolean_shaped(e.body, env) and self._boolean_shaped(e.orelse, env)
+        if isinstance(e, ast.Name):
+            v = env.get(e.id)
+            return isinstance(v, ast.Constant) and isinstance(v.value, bool)
+        if isinstance(e, ast.Call) and isinstance(e.func, ast.Attribute):
+            c = self.close(e.func.value, env)
+            return isinstance(c, ast.Call) and astq.is_name(c.func, "parse_etags")
+        return False
+
+    def _transparent(self, c: ast.AST) -> bool:
+        if isinstance(c, (ast.Constant, ast.Name)):
+            return True
+        if isinstance(c, ast.Attribute):
+            return self._transparent(c.value)
+        if isinstance(c, ast.Call) and isinstance(c.func, ast.Name) and c.func.id in _PURE.values() and not c.keywords:
+            return all(self._transparent(a) for a in c.args)
+        return False
+
+    def _opaque(self, name: str, node: Node, env: dict, value: ast.AST | None) -> dict:
+        if value is not None:
+            s = self._sensitive(self.close(value, env))
+            if s is not None:
+                raise AnalysisError(f"{self.fq}: cannot follow `{s}` through `{norm(node.ast)[:80]}`")
+        en = dict(env)
+        en[name] = ast.Name(id=f"{name}'{node.id}", ctx=ast.Load())
+        return en
+
+    def bind(self, name: str, value: ast.AST, env: dict, val: dict, node: Node) -> list[tuple[dict, dict]]:
+        if self._boolean_shaped(value, env):
+            out = []
+            for b, en, va in self.truth(value, env, val, node):
+                en = dict(en)
+                en[name] = ast.Constant(value=b)
+                out.append((en, va))
+            return out
+        if isinstance(value, ast.IfExp):
+            out = []
+            for b, en, va in self.truth(value.test, env, val, node):
+                out += self.bind(name, value.body if b else value.orelse, en, va, node)
+            return out
+        if isinstance(value, ast.NamedExpr) and isinstance(value.target, ast.Name):
+            out = []
+            for en, va in self.bind(value.target.id, value.value, env, val, node):
+                out += self.bind(name, ast.Name(id=value.target.id, ctx=ast.Load()), en, va, node)
+            return out
+        c = self.close(value, env)
+        if self._transparent(c):
+            en = dict(env)
+            en[name] = c
+            return [(en, val)]
+        return [(self._opaque(name, node, env, value), val)]
+
+    def _exec(self, node: Node, env: dict, val: dict) -> list[tuple[dict, dict]]:
+        st = node.ast
+        if isinstance(st, ast.Assign) and all(isinstance(tg, ast.Name) for tg in st.targets):
+            states = [(env, val)]
+            for tg in st.targets:
+                states = [s2 for en, va in states for s2 in self.bind(tg.id, st.value, en, va, node)]  # type: ignore[attr-defined]
+            return states
+        if isinstance(st, ast.AnnAssign) and isinstance(st.target, ast.Name):
+            if st.value is None:
+                return [(env, val)]
+            return self.bind(st.target.id, st.value, env, val, node)
+        if isinstance(st, ast.AugAssign) and isinstance(st.target, ast.Name) and isinstance(st.op, (ast.BitOr, ast.BitAnd)):
+            cur = env.get(st.target.id)
+            if isinstance(cur, ast.Constant) and isinstance(cur.value, bool):
+                comb = ast.BoolOp(op=ast.Or() if isinstance(st.op, ast.BitOr) else ast.And(), values=[ast.Constant(value=cur.value), ast.Call(func=ast.Name(id="bool", ctx=ast.Load()), args=[st.value], keywords=[])])
+                # both operands of | and & are evaluated, but evaluation has no effect on the table's atoms
+                return self.bind(st.target.id, comb, env, val, node)
+        if isinstance(st, (ast.FunctionDef, ast.AsyncFunctionDef, ast.ClassDef)):
+            return [(self._opaque(st.name, node, env, None), val)]
+        value = getattr(st, "value", None) if isinstance(st, (ast.Assign, ast.AugAssign, ast.AnnAssign, ast.Expr)) else None
+        en = env
+        stored = [x.id for x in walk_no_nested(st) if isinstance(x, ast.Name) and isinstance(x.ctx, ast.Store)] if st is not None else []
+        if stored:
+            for nm in stored:
+                en = self._opaque(nm, node, en, value)
+        elif value is not None and not isinstance(st, ast.Expr):
+            s = self._sensitive(self.close(value, env))
+            if s is not None:
+                raise AnalysisError(f"{self.fq}: cannot follow `{s}` through `{norm(st)[:80]}`")
+        return [(en, val)]
+
+    def _run(self) -> None:
+        cfg = self.A.cfg
+        # the property's callers pass data=None (R11.4 checks the two calls in Response)
+        start_val = {"data_none": True, "data_truthy": False}
+        stack: list[tuple[Node, dict, dict]] = [(cfg.entry, {}, start_val)]
+        seen_out: set = set()
+        while stack:
+            n, env, val = stack.pop()
+            self._tick()
+            if n is cfg.exit:
+                self._out(val, False, None, seen_out)  # fell off the end: returns None
+                continue
+            if n is cfg.raise_exit:
+                continue
+            if n.kind == "loop" or (n.kind == "join" and n.note == "while-head"):
+                raise AnalysisError(f"{self.fq}: loop in the verdict function, the truth table is not applicable")
+            if n.kind == "test":
+                for b, en, va in self.truth(n.ast, env, val, n):
+                    for s in cfg.succ(n, "T" if b else "F"):
+                        stack.append((s, en, va))
+                continue
+            if n.kind == "stmt" and isinstance(n.ast, ast.Return):
+                if n.ast.value is None:
+                    self._out(val, False, n.ast, seen_out)
+                else:
+                    for b, _, va in self.truth(n.ast.value, env, val, n):
+                        self._out(va, b, n.ast, seen_out)
+                continue
+            if n.kind == "stmt" and isinstance(n.ast, ast.Raise):
+                continue
+            states = self._exec(n, env, val) if n.kind == "stmt" else [(env, val)]
+            for s, l in n.succs:
+                if l in ("exc", "raise"):
+                    continue
+                for en, va in states:
+                    stack.append((s, en, va))
+
+    def _out(self, val: dict, result: bool, ret: ast.Return | None, seen: set) -> None:
+        k = (frozenset(val.items()), result, id(ret))
+        if k not in seen:
+            seen.add(k)
+            self.outcomes.append(TableOutcome(val, result, ret))  # type: ignore[arg-type]
+
+    # -- the required table --------------------------------------------------------------------
+    def _cmp_atom(self, v: dict, role: str) -> str:
+        ks = sorted(k for k in v if k.startswith(f"C_{role}."))
+        if len(ks) > 1:
+            raise AnalysisError(f"{self.fq}: one path asks the {_ROLE_NAME[role]} tags with different predicates ({', '.join(k[2:] for k in ks)}): cannot relate them")
+        return ks[0] if ks else f"C_{role}.?"
+
+    def required(self, row: dict) -> tuple[str, bool] | None:
+        """(deciding validator, required value of 'not modified') for a complete row; None: this table requires nothing
+        (no ETag on the response, no ETag validator sent, or If-Match together with If-None-Match: outside the domain)."""
+        if not row["etag_truthy"]:
+            return None
+        rng_sent = (not row["rng_none"]) if "rng_none" in row else row["rng_truthy"]
+        gate = (not row["ign_truthy"]) and rng_sent and not row["ifr_none"] and not row["ifrtag_none"]
+        if gate:
+            return "IFR", row[self._cmp_atom(row, "IFR")]
+        if row["P_IM"] and row["P_INM"]:
+            return None
+        if row["P_IM"]:
+            return "IM", not row[self._cmp_atom(row, "IM")]
+        if row["P_INM"]:
+            return "INM", row[self._cmp_atom(row, "INM")]
+        return None
+
+    def check(self, modified_result: bool = True) -> tuple[dict[str, int], list[Mismatch]]:
+        """compare every outcome, completed in every consistent way over the atoms its path did not consult, with the
+        required table.  ``modified_result``: the function returns True for 'modified' (False: for 'not modified')."""
+        rows = {"IM": 0, "INM": 0, "IFR": 0}
+        bad: list[Mismatch] = []
+        done: set = set()
+        for o in self.outcomes:
+            v = o.val
+            if v.get("etag_truthy") is False:
+                continue
+            sem = (frozenset((k, b) for k, b in v.items() if not k.startswith("~")), o.result)
+            if sem in done:  # the free conditions of the path do not enter the comparison: one witness per semantic row
+                continue
+            done.add(sem)
+            need = ["etag_truthy", "ign_truthy", "ifr_none", "ifrtag_none", "P_IM", "P_INM"]
+            if "rng_none" not in v and "rng_truthy" not in v:
+                need.append("rng_none")
+            need += [self._cmp_atom(v, r) for r in ("IM", "INM", "IFR")]
+            free = [k for k in need if k not in v]
+            unmodified = o.result != modified_result
+            for bits in itertools.product((True, False), repeat=len(free)):
+                row = dict(v)
+                row.update(zip(free, bits))
+                if not self.consistent(row):
+                    continue
+                req = self.required(row)
+                if req is None:
+                    continue
+                rows[req[0]] += 1
+                if req[1] != unmodified:
+                    bad.append(Mismatch(req[0], o, row, req[1]))
+        return rows, bad
+
+    # -- reporting ----------------------------------------------------------------------------------
+    _TEXT = {
+        "etag_truthy": "the response has an ETag",
+        "etag_none": "etag is None",
+        "ign_truthy": "ignore_if_range",
+        "rng_none": "no Range header",
+        "rng_truthy": "Range header sent",
+        "ifr_none": "parsed If-Range is None",
+        "ifrtag_none": "If-Range carries no tag",
+        "P_IM": "If-Match has tags",
+        "P_INM": "If-None-Match has tags",
+        "P_IFR": "If-Range tag parses to tags",
+    }
+
+    def describe(self, m: Mismatch) -> str:
+        """the row in words: the validator atoms the path consulted, and the free conditions on which the answer
+        hinges (those that differ from the nearest path with the same validator atoms and the other answer)."""
+        v = m.outcome.val
+
+        def sem(o: TableOutcome) -> frozenset:
+            return frozenset((k, b) for k, b in o.val.items() if not k.startswith("~"))
+
+        mine = sem(m.outcome)
+        hinge: dict | None = None
+        for o in self.outcomes:
+            if o.result != m.outcome.result and sem(o) == mine:
+                d = {k: v[k] for k in v if k.startswith("~") and o.val.get(k) is not v[k]}
+                if hinge is None or len(d) < len(hinge):
+                    hinge = d
+        parts = []
+        show = ["P_IM", "P_INM"] + ([] if m.role != "IFR" else ["ign_truthy", "rng_none", "rng_truthy", "ifrtag_none"])
+        for k in show:
+            if k in v:
+                parts.append(f"{self._TEXT[k]}: {'yes' if v[k] else 'no'}")
+        for k in sorted(m.row):
+            if k.startswith("C_") and (k in v or k.startswith(f"C_{m.role}.")):
+                role, meth = k[2:].split(".", 1)
+                parts.append(f"{_ROLE_NAME[role]} {'.' + meth + '(etag)' if meth != '?' else 'comparison (not asked on this path)'}: {'match' if m.row[k] else 'no match'}")
+        if hinge:
+            parts.append("with " + ", ".join(f"`{re.sub(chr(39) + r'[0-9]+', '', k[1:])}` {'true' if b else 'false'}" for k, b in sorted(hinge.items())))
+        elif hinge is None:
+            parts.append("whatever the other conditions")
+        got = "modified" if m.expected else "not modified"
+        want = "not modified" if m.expected else "modified"
+        return f"{'; '.join(parts)} -> answers '{got}', the {_ROLE_NAME[m.role]} comparison alone requires '{want}'"
